@@ -242,11 +242,21 @@ def main():
     if not quick:
         for e in patterns(RED_TOK, red_mid, 5):
             if sum(x in BIG for x in e) >= 2: add(jobs_small, e)          # three-piece chains
+    # newline family: hex wildcards, jumps and negations match ANY byte, 0x0A included (hex strings are compiled as dot-all regexes; patterns with an
+    # alternation run on the general regex engine, the others on the fast path): small token set, buffers over {41, 0A, 40}
+    NL = [("41", "B 41 ff 0", "lit"), ("0A", "B 0a ff 0", "lit"), ("??", ANY, "mask"), ("~41", "B 41 ff 1", "not"), ("4?", "B 40 f0 0", "mask"), ("?A", "B 0a 0f 0", "mask"),
+          ("(41|40)", "| B 41 ff 0 B 40 ff 0", "alt"), ("(0A|41 41)", "| B 0a ff 0 . B 41 ff 0 B 41 ff 0", "alt")]
+    jobs_nl = []
+    for L in (2, 3, 4):
+        for e in patterns(NL, NL + [J(1, 2), JU(0), J(2, 2)], L):
+            if L == 4 and quick and not any(x[2] == "alt" for x in e): continue
+            n += 1; pr = prog("n%d" % n, e); jobs_nl.append((pr[0], pr[1], pr[2], "newline-family:" + pr[3]))
     alpha = "41406100"
     lb = 7 if quick else 8
     chunks = [("plain", "B all %s %d" % (alpha, lb), c) for c in yv.chunked(jobs_plain, 40)]
     chunks += [("small", "B all %s %d" % (alpha, 8 if quick else 9), c) for c in yv.chunked(jobs_small, 20)]
     chunks += [("plain", None, c) for c in yv.chunked(window_family(quick), 100)]
+    chunks += [("plain", "B all 410a40 %d" % (7 if quick else 8), c) for c in yv.chunked(jobs_nl, 60)]
     if quick:
         chunks += [("asan", "B all %s 5" % alpha, c) for c in yv.chunked(jobs_plain[:3500:3], 60)]
     for v in ("plain", "small", "asan"): yv.space_exe(v)
@@ -271,7 +281,7 @@ def main():
     ck.cov["rule"] = ("programs = every grammar-legal sequence of <=3 (quick) / <=4 (thorough) elements from {4 bytes, 3 masks, 3 negations, 4 alternations, "
                       "6 jumps} (+ length 4/5 over a reduced alphabet) on the shipped constants, and every such pattern containing a jump over "
                       "the chaining threshold on the build with the threshold scaled to 3; inputs = all buffers over {41,40,61,00} with length <= %d; "
-                      "non-trivial = (pattern, buffer) pairs where the reference expects a match; plus boundary chains on the real threshold 200; plus the window family: "
+                      "non-trivial = (pattern, buffer) pairs where the reference expects a match; plus boundary chains on the real threshold 200; plus the newline family (<=4 elements of {41, 0A, ??, ~41, 4?, ?A, two alternations, three jumps} over all buffers of {41,0A,40}); plus the window family: "
                       "every fixed-length run of 5..7 (8) one-byte elements {literal, ??, nibble mask, negation} in two byte palettes, each against its own instance / near-miss buffers" % lb)
     ck.assumptions += ["the scaled-threshold build is the same source with YR_STRING_CHAINING_THRESHOLD=3", "reported length must be one the pattern can match at that offset"]
     ck.finish()
